@@ -1,0 +1,7 @@
+//go:build !verif
+
+package go9p
+
+// verifPoint is a schedule point of the verification harness; without the verif
+// build tag it is an empty, inlinable function.
+func verifPoint(point string, a, b uint32) {}
